@@ -145,6 +145,10 @@ func (ldhcp6duid) Gen(rng *rand.Rand, tier string) []Case {
 					add("rt:" + lnHex(p[:k]) + ",")
 				}
 			}
+			// the DUIDs of dhcpv6_test.go (field-built there too; the test files have no DHCPv6 packet literal)
+			add("tag:seed", "rtn:1.0001.-.1c38262d.080027fe8f95.-,")
+			add("tag:seed", "rtn:1.0001.-.1c3825e8.080027d410bb.-,")
+			add("tag:seed", "new:1.0001.-.1c38262d.080027fe8f95.-,111,")
 			for a := 1; a <= 4; a++ { // type change on a reused object, all ordered pairs
 				for b := 0; b <= 4; b++ {
 					add("tag:type-change", "dec2:"+lnHex(mk(rng, a))+","+lnHex(mk(rng, b)))
